@@ -202,7 +202,7 @@ func (c *client) Request(ctx async.Context, req prpc.Request) (ref.R[spec.Value]
 
 	result_ := ref.NewFreer(result, ch)
 	done = true
-	return result_, status.OK
+	return result_, st
 }
 
 // RequestOneway sends a request and closes the channel, without waiting for a response.
